@@ -183,7 +183,7 @@ func c09Scripts(r *fw.Rand, scen *gen.Scenario, n int) []c09script {
 		// of a round at once — in particular in the first round of a process
 		ops := []string{"start", "eval_shared"}
 		for k := 0; k < r.Range(2, 6); k++ {
-			ops = append(ops, fw.Pick(r, []string{"resume", "resume", "reread", "inspect", "templates", "change_language", "eval", "query", "modifier", "localizables"}))
+			ops = append(ops, fw.Pick(r, []string{"resume", "resume", "reread", "reread", "inspect", "templates", "change_language", "eval", "eval_webhook", "query", "modifier", "localizables"}))
 		}
 		out = append(out, c09script{flowIdx: fi, trigger: t, resumes: sub.Resumes, ops: ops,
 			lang:  fw.Pick(r, []string{"eng", "spa", "fra", "kin"}),
@@ -324,6 +324,16 @@ func runScript(sh *c09shared, sc *c09script, g int) (transcript []string, stamps
 				out, _ := run.EvaluateTemplate(t, func(flows.Event) {})
 				emit("eval_shared", out)
 			}
+		case "eval_webhook":
+			if session == nil || len(session.Runs()) == 0 {
+				break
+			}
+			for _, run := range session.Runs() {
+				var evs []flows.Event
+				out, _ := run.EvaluateTemplate("@webhook @webhook.json @(json(webhook)) @trigger.params @(trigger.params.vip) @(trigger.params.flags[1]) @results", func(e flows.Event) { evs = append(evs, e) })
+				emit("eval_webhook", out)
+				emit("eval_webhook_events", evs)
+			}
 		case "eval":
 			if session == nil || len(session.Runs()) == 0 {
 				break
@@ -390,8 +400,12 @@ func canary(sh *c09shared, lazies bool) map[string]string {
 		"registry.actions":         fmt.Sprint(len(actions.RegisteredTypes())),
 		"registry.tests":           fmt.Sprint(len(cases.XTESTS)),
 		"registry.modifiers":       fmt.Sprint(len(modifiers.RegisteredTypes)),
+		// the shared singleton values must stay as they were built, including the deprecation note every value can carry
+		"types.singletons": fmt.Sprintf("%v|%v|%s|%s|", types.XBooleanTrue.Native(), types.XBooleanFalse.Native(), types.XNumberZero.Native().String(), types.XTextEmpty.Native()) +
+			strings.Join([]string{types.XBooleanTrue.Deprecated(), types.XBooleanFalse.Deprecated(), types.XNumberZero.Deprecated(), types.XDateTimeZero.Deprecated(), types.XDateZero.Deprecated(), types.XTimeZero.Deprecated(), types.XTextEmpty.Deprecated()}, "|"),
 	}
 	if lazies {
+		m["types.lazy_singletons.deprecated"] = types.XArrayEmpty.Deprecated() + "|" + types.XObjectEmpty.Deprecated() + "|" + cases.FalseResult.Deprecated()
 		m["types.XObjectEmpty"] = fmt.Sprint(types.XObjectEmpty.Count())
 		m["types.XArrayEmpty"] = fmt.Sprint(types.XArrayEmpty.Count())
 		m["cases.FalseResult"] = string(marshalJSON(cases.FalseResult))
@@ -412,7 +426,8 @@ func canary(sh *c09shared, lazies bool) map[string]string {
 }
 
 // what the lazily initialised globals must look like whenever they are looked at
-var canaryExpected = map[string]string{"envs.DefaultNumberFormat": `"." ","`, "types.XObjectEmpty": "0", "types.XArrayEmpty": "0", "cases.FalseResult": `{"match":""}`}
+var canaryExpected = map[string]string{"envs.DefaultNumberFormat": `"." ","`, "types.XObjectEmpty": "0", "types.XArrayEmpty": "0", "cases.FalseResult": `{"match":""}`,
+	"types.singletons": "true|false|0||||||||", "types.lazy_singletons.deprecated": "||"}
 
 type c09roundResult struct {
 	Round        int              `json:"round"`
@@ -428,6 +443,7 @@ type c09roundResult struct {
 	Panics       []string         `json:"panics,omitempty"`
 	Scenario     *gen.Scenario    `json:"scenario,omitempty"`
 	Scripts      []map[string]any `json:"scripts,omitempty"`
+	Planted      string           `json:"planted,omitempty"`
 }
 
 // c09child: vcheck-race c09child <seed> <child-index> <rounds> <maxN> <jitter 0|1> <out.json>
@@ -457,6 +473,15 @@ func c09child(args []string) int {
 		for _, f := range scen.Flows() {
 			f["spec_version"] = "13.0.0"
 			stripForOldSpec(f)
+		}
+		// in a third of the rounds the first flow begins with a webhook whose body is a bare JSON value, saved as a result:
+		// a session that is re-read recreates @webhook from that result, which every later evaluation then touches
+		if f0 := scen.Flows()[0]; f0["type"] != "messaging_offline" && len(f0["nodes"].([]any)) > 0 && r.Chance(0.35) {
+			nd := f0["nodes"].([]any)[0].(gen.M)
+			acts, _ := nd["actions"].([]any)
+			wh := gen.M{"type": "call_webhook", "uuid": gen.UUID4(r), "method": "GET", "url": "http://localhost/?cmd=" + fw.Pick(r, []string{"true", "false", "true", "array", "flags", "number", "null", "string"}), "result_name": "webhook"}
+			nd["actions"] = append([]any{wh}, acts...)
+			rr.Planted = "bare-json-webhook"
 		}
 		n := []int{2, 3, 4, 8, 16, 32}[r.Intn(6)]
 		if n > maxN {
@@ -664,7 +689,7 @@ func (p *c09) RunCustom(o *fw.Orchestrator) {
 	raceReports := 0
 	ops := map[string]int{}
 	interleavings := map[string]bool{}
-	var nRounds, nGoroutinesMax, overlapRounds, coldCollisions, discarded, panicsSeen int
+	var nRounds, nGoroutinesMax, overlapRounds, coldCollisions, discarded, panicsSeen, planted int
 	panicKinds := map[string]bool{}
 	procsSeen := map[int]bool{}
 	sem := make(chan struct{}, par)
@@ -735,6 +760,9 @@ func (p *c09) RunCustom(o *fw.Orchestrator) {
 					ops[k] += v
 				}
 				interleavings[rr.Interleaving] = true
+				if rr.Planted != "" {
+					planted++
+				}
 				if rr.ColdCollide {
 					coldCollisions++
 				}
@@ -775,6 +803,7 @@ func (p *c09) RunCustom(o *fw.Orchestrator) {
 		o.Sum.Counters["ops."+k] = int64(v)
 	}
 	o.Sum.Counters["rounds"] = int64(nRounds)
+	o.Sum.Counters["rounds_with_planted_bare_json_webhook"] = int64(planted)
 	o.Sum.Counters["rounds_with_overlap_on_shared_flow"] = int64(overlapRounds)
 	o.Sum.Counters["cold_first_access_collisions"] = int64(coldCollisions)
 	o.Sum.Counters["race_reports"] = int64(raceReports)
